@@ -337,6 +337,8 @@ def h_string_hash_ord(d: Decl, props, a, b):
             '        assert!(h1.n == h2.n && h1.n < 9 && h1.n == h3.n, "Hash feeds the hasher as the borrowed forms do");\n'
             '        let mut i = 0; while i < h1.n && i < 8 { assert!(h1.log[i] == h2.log[i] && h1.log[i] == h3.log[i], "Hash feeds the hasher exactly what the borrowed str/String feed"); i += 1; }\n'
             '        assert!((x == y) == (sx == sy) && x.partial_cmp(&y) == sx.partial_cmp(&sy) && x.cmp(&y) == sx.cmp(&sy), "comparisons agree with the inner strings");\n'
+            '        assert!((x != y) == (sx != sy) && (x < y) == (sx < sy) && (x <= y) == (sx <= sy) && (x > y) == (sx > sy) && (x >= y) == (sx >= sy), "every comparison operator agrees with the inner strings");\n'
+            '        assert!(x >= x && x <= x && !(x < x) && !(x > x) && x == x, "comparison of a value with itself");\n'
             '        assert!(x.clone() == x, "clone is equal");\n')
     return Harness(d, 'String Hash/Borrow/Ord (%s, %s)' % (a, b), props, body, attrs='#[kani::unwind(12)]\n    ',
                    bounded='concrete strings only (symbolic strings do not finish in CBMC)',
@@ -634,9 +636,10 @@ def h_deserialize(d: Decl, props, bounded=None, concrete=None, only_protocol=Fal
         val = '        let raw: String = String::from(%s);\n' % concrete[0]
         mode = '        let mode: u8 = %d;\n        let ok: bool = %s;\n        unsafe { sfmt::STR_SHAPE = %d; }\n' % (concrete[1], concrete[2], concrete[4] if len(concrete) > 4 else 0)
     body = (sym_setup(d) + val + mode +
-            '        unsafe { sfmt::EXPECT_NAME = "%s"; sfmt::NEWTYPE_CALLS = 0; sfmt::SEEN_NAME_OK = false; }\n' % d.name +
+            '        unsafe { sfmt::EXPECT_NAME = "%s"; sfmt::NEWTYPE_CALLS = 0; sfmt::SEEN_NAME_OK = false; sfmt::INNER_REQ = 0; }\n' % d.name +
             '        let r = <%s as serde::Deserialize>::deserialize(sfmt::Fmt { v: raw%s, ok, mode });\n' % (S, '.clone()' if d.family == 'string' else '') +
-            '        unsafe { assert!(sfmt::NEWTYPE_CALLS == 1 && sfmt::SEEN_NAME_OK, "deserialize_newtype_struct is requested once, with the type\'s name"); }\n'
+            '        unsafe { assert!(sfmt::NEWTYPE_CALLS == 1 && sfmt::SEEN_NAME_OK, "deserialize_newtype_struct is requested once, with the type\'s name"); }\n' +
+            ('        if mode == 0 { unsafe { assert!(sfmt::INNER_REQ == 1, "the carried value is requested as the INNER type (as <Inner as Deserialize>::deserialize does), not as a wider / other type"); } }\n' if d.family in ('int', 'float') or (d.generics and d.inner == 'T') else '') +
             '        if mode == 0 {\n'
             '            if !ok { assert!(matches!(r, Err(sfmt::DErr::Inner)), "a failing inner value fails deserialization with the inner error"); }\n'
             '            else {\n')
@@ -743,10 +746,11 @@ def h_roundtrip(d: Decl, props):
     else:
         back = 'rec.bits as %s' % I
     body = (sym_setup(d) + anyval(d) + obtain(d, 'v', 'raw') +
-            '        unsafe { sfmt::EXPECT_NAME = "%s"; sfmt::SER_FAIL = false; sfmt::NEWTYPE_CALLS = 0; }\n' % d.name +
+            '        unsafe { sfmt::EXPECT_NAME = "%s"; sfmt::SER_FAIL = false; sfmt::NEWTYPE_CALLS = 0; sfmt::SEEN_NAME_OK = false; }\n' % d.name +
             '        let rec = serde::Serialize::serialize(&v, sfmt::RecSer { depth: 0 }).unwrap();\n'
             '        let inner_back: %s = %s;\n' % (I, back) +
             '        let r = <%s as serde::Deserialize>::deserialize(sfmt::Fmt { v: inner_back, ok: true, mode: 0 });\n' % S +
+            '        unsafe { assert!(rec.name_ok && sfmt::SEEN_NAME_OK, \"Deserialize asks for the newtype struct under the name Serialize wrote (formats that carry struct names compare them)\"); }\n'
             '        match r { Ok(w) => assert!(%s == %s, "deserialize(serialize(v)) == v"), Err(_) => assert!(false, "a serialized valid value must deserialize") }\n'
             % (bits(d, 'w.into_inner()'), bits(d, 'v.into_inner()')))
     return Harness(d, 'serde round trip', props, body, clause='forall obtainable v: deserialize(serialize(v)) == Ok(v) through a format that round-trips the inner value')
@@ -757,10 +761,11 @@ def h_roundtrip_concrete(d: Decl, props, lit, tag):
     S = concrete_self(d)
     I = concrete_inner(d)
     body = ('        let raw: %s = %s;\n' % (I, lit) + obtain(d, 'v', 'raw') +
-            '        unsafe { sfmt::EXPECT_NAME = "%s"; sfmt::SER_FAIL = false; sfmt::NEWTYPE_CALLS = 0; }\n' % d.name +
+            '        unsafe { sfmt::EXPECT_NAME = "%s"; sfmt::SER_FAIL = false; sfmt::NEWTYPE_CALLS = 0; sfmt::SEEN_NAME_OK = false; }\n' % d.name +
             '        let rec = serde::Serialize::serialize(&v, sfmt::RecSer { depth: 0 }).unwrap();\n'
             '        let inner_back: %s = rec.bits as %s;\n' % (I, I) +
             '        let r = <%s as serde::Deserialize>::deserialize(sfmt::Fmt { v: inner_back, ok: true, mode: 0 });\n' % S +
+            '        unsafe { assert!(rec.name_ok && sfmt::SEEN_NAME_OK, \"Deserialize asks for the newtype struct under the name Serialize wrote (formats that carry struct names compare them)\"); }\n'
             '        match r { Ok(w) => assert!(w.into_inner() == raw, "deserialize(serialize(v)) == v"), Err(_) => assert!(false, "a serialized valid value must deserialize") }\n')
     return Harness(d, 'serde round trip (%s)' % tag, props, body, bounded='one concrete value: %s' % lit,
                    clause='deserialize(serialize(v)) == Ok(v)')
@@ -769,10 +774,11 @@ def h_roundtrip_concrete(d: Decl, props, lit, tag):
 def h_roundtrip_string(d: Decl, props, lit, tag, bounded):
     S = concrete_self(d)
     body = ('        let raw = String::from(%s);\n' % lit + obtain(d, 'v', 'raw.clone()') +
-            '        unsafe { sfmt::EXPECT_NAME = "%s"; sfmt::SER_FAIL = false; sfmt::NEWTYPE_CALLS = 0; sfmt::LAST_STR = None; }\n' % d.name +
+            '        unsafe { sfmt::EXPECT_NAME = "%s"; sfmt::SER_FAIL = false; sfmt::NEWTYPE_CALLS = 0; sfmt::SEEN_NAME_OK = false; sfmt::LAST_STR = None; }\n' % d.name +
             '        let rec = serde::Serialize::serialize(&v, sfmt::RecSer { depth: 0 }).unwrap();\n'
             '        let carried: String = unsafe { sfmt::LAST_STR.take() }.unwrap();\n'
             '        let r = <%s as serde::Deserialize>::deserialize(sfmt::Fmt { v: carried, ok: true, mode: 0 });\n' % S +
+            '        unsafe { assert!(rec.name_ok && sfmt::SEEN_NAME_OK, \"Deserialize asks for the newtype struct under the name Serialize wrote (formats that carry struct names compare them)\"); }\n'
             '        match r { Ok(w) => assert!(w.into_inner() == v.into_inner(), "deserialize(serialize(v)) == v"), Err(_) => assert!(false, "a serialized valid value must deserialize") }\n')
     return Harness(d, 'serde round trip (%s)' % tag, props, body, bounded=bounded,
                    clause='deserialize(serialize(v)) == Ok(v) through a format that hands the string back as an owned string (as JSON does for escaped text)')
@@ -971,7 +977,7 @@ def h_arbitrary_any(d: Decl, props):
 
 def arbitrary_int_decls(tier='quick'):
     out = []
-    types = INT_TYPES if tier == 'thorough' else ['u8', 'i8', 'i16', 'u32', 'i32', 'i64', 'usize']
+    types = INT_TYPES if tier == 'thorough' else ['u8', 'i8', 'i16', 'u32', 'i32', 'i64', 'usize', 'isize']
     for t in types:
         T = t.upper()
         der = ['Debug', 'Arbitrary']
@@ -1001,6 +1007,15 @@ def arbitrary_int_decls(tier='quick'):
             out.append(mk('arb_u8_userconst_max', 'int', t, validators=[Validator('greater', Bound('MAX - 10', '', '(MAX - 10)'))], aux=['USER_MAX_U8'], derives=der))
         if t == 'i16':
             out.append(mk('arb_i16_userconst_min', 'int', t, validators=[Validator('less_or_equal', Bound('MIN + 50', '', '(MIN + 50)'))], aux=['USER_MIN_I16'], derives=der))
+        # bounds made of UNTYPED literals only: they take the inner type in the validator, so the
+        # generator must evaluate them as the inner type too (not as i32)
+        if INT_BITS_OF[t] >= 64:
+            out.append(mk('arb_%s_untyped_shl31' % t, 'int', t,
+                          validators=[Validator('greater_or_equal', Bound('(1 << 31)', '', '((1 as %s) << 31)' % t)),
+                                      Validator('less_or_equal', Bound('(1 << 31) + 100', '', '(((1 as %s) << 31) + 100)' % t))], derives=der))
+            out.append(mk('arb_%s_untyped_shl31_ge' % t, 'int', t,
+                          validators=[Validator('greater_or_equal', Bound('(1 << 31)', '', '((1 as %s) << 31)' % t))], derives=der))
+        out.append(mk('arb_%s_untyped_not_shr' % t, 'int', t, validators=[Validator('less_or_equal', Bound('!0 >> 1', '', '(!(0 as %s) >> 1)' % t))], derives=der))
         # custom sanitizer with validation (accepted by the macro for integers)
         s3, n3 = aux.custom('san3', t)
         dd = mk('arb_%s_san3_le12' % t, 'int', t, sanitizers=[Sanitizer('with', s3)], validators=[Validator('less_or_equal', aux.lit_bound(12, t))], aux=[n3], derives=der)
@@ -1335,9 +1350,34 @@ def float_decls(tier='quick'):
         out.append(mk('flt_%s_fin_wide_lit_const' % t, 'float', t, const_fn=True,
                       validators=[Validator('greater_or_equal', Bound('%s::MIN' % t, '', '%s::MIN' % t)), fin, Validator('less_or_equal', Bound('%s::MAX' % t, '', '%s::MAX' % t))],
                       derives=FLOAT_DERIVES))
+        # `finite` written AFTER two literal bounds (NaN passes both bounds; only `finite` stops it)
+        out.append(mk('flt_%s_ge_le_lit_fin' % t, 'float', t,
+                      validators=[Validator('greater_or_equal', Bound('-1.0', '', '(-1.0 as %s)' % t)), Validator('less_or_equal', Bound('1.0', '', '(1.0 as %s)' % t)), fin],
+                      derives=FLOAT_DERIVES + ['Eq', 'Ord']))
+        out.append(mk('flt_%s_gt_lt_lit_fin' % t, 'float', t,
+                      validators=[Validator('greater', Bound('0.0', '', '(0.0 as %s)' % t)), Validator('less', Bound('1e30', '', '(1e30 as %s)' % t)), fin],
+                      derives=FLOAT_DERIVES + ['Eq', 'Ord']))
         out.append(mk('flt_%s_fin_ge_le_lit_const' % t, 'float', t, const_fn=True,
                       validators=[fin, Validator('greater_or_equal', Bound('-1.0', '', '(-1.0 as %s)' % t)), Validator('less_or_equal', Bound('1.0', '', '(1.0 as %s)' % t))],
                       derives=FLOAT_DERIVES + ['Eq', 'Ord']))
+    for d in out:
+        d.verus = False
+        d.kani = True
+    return out
+
+
+def partial_pred_decls(tier='quick'):
+    """`validate(greater = 0, predicate = p)` where p is only defined for x > 0: the rules are evaluated
+    in the order written and evaluation stops at the first violated one (so p never sees x <= 0)"""
+    out = []
+    for t in (['i32', 'u8', 'f64'] if tier == 'quick' else ['i8', 'i32', 'i64', 'u8', 'u64', 'f32', 'f64']):
+        fl = t in FLOAT_TYPES
+        pp, npp = aux.custom('pred_partial', t)
+        zero = Bound('0.0' if fl else '0', '', '(0.0 as %s)' % t if fl else '(0 as %s)' % t)
+        vals = [Validator('greater', zero), Validator('predicate', fn=pp)]
+        if fl:
+            vals = [Validator('finite')] + vals
+        out.append(mk('pp_%s_gt0_pred' % t, 'float' if fl else 'int', t, validators=vals, aux=[npp], derives=['Debug', 'TryFrom', 'FromStr']))
     for d in out:
         d.verus = False
         d.kani = True
@@ -1380,7 +1420,7 @@ def harnesses_for(prop, tier, seed):
     if prop in ('C01', 'C07'):
         fl = float_decls(tier)
         ki = [d for d in int_kani_decls(tier) if 'closure' in d.id]
-        decls = fl + ki
+        decls = fl + ki + partial_pred_decls(tier)
         if prop == 'C07':
             decls = [d for d in decls if d.has_validation]
         for d in decls:
@@ -1471,6 +1511,22 @@ def harnesses_for(prop, tier, seed):
                 h.what = 'guards run: deserialize_in_place on an existing value'
                 h.key = '%s::%s' % (d.id, h.what)
                 hs.append(h)
+        # foreign attributes on the declaration (must be refused): a built-in derive spelled by path would be
+        # expanded inside the private module, where the field is accessible, and hand out unguarded values
+        fa = []
+        for tag, attr in [('path_derive_default', '#[::core::prelude::v1::derive(Default)]'), ('derive_default', '#[derive(Default)]'),
+                          ('std_path_derive_default', '#[::std::prelude::v1::derive(Default)]'), ('cfg_attr_derive_default', '#[cfg_attr(all(), derive(Default))]')]:
+            dfa = mk('fa_%s' % tag, 'int', 'i32', validators=[Validator('greater', Bound('0', '', '(0 as i32)'))], derives=['Debug'])
+            dfa.extra_attrs = attr
+            dfa.expect_reject = True
+            dfa.verus = False
+            dfa.note = 'foreign attribute ' + attr
+            fa.append(dfa)
+            body = ('        let v = <%s as Default>::default();\n        let i = v.into_inner();\n' % dfa.name +
+                    '        assert!(ref_%s::valid(&i), "a value obtained through a derive that the declaration smuggles in satisfies every declared validator");\n' % dfa.id)
+            hs.append(Harness(dfa, 'guards run: foreign attribute (must be rejected; if accepted, Default must be guarded)', [prop], body,
+                              clause='a declaration carrying `%s` is rejected, or the derive it brings cannot produce an invalid value' % attr))
+        decls = decls + fa
         # String newtypes: deserialize_in_place on an existing value (concrete documents in Kani, native runs)
         sdecls = serde_string_decls()
         B = 'bounded: concrete string documents only (symbolic strings do not finish in CBMC)'
@@ -1811,6 +1867,37 @@ def string_arbitrary_exploration(out, tier):
     out.bounded.append('String Arbitrary: BOUNDED concrete exploration only (%d declarations, %d generator runs over enumerated byte inputs: selector byte + up to 4 special chars, all-0x00/0xFF up to 64 bytes); not a proof, not counted as obligations' % (nd, explored))
 
 
+def float_arbitrary_infinite_bounds(out, tier):
+    """C09, floats with `finite` and INFINITE bounds (`less = f64::INFINITY` ...): Kani's own NaN checks
+    fire on every `inf * 0` the generator computes and discards, so these settings are not in the
+    proof ("any finite bounds"); as a bounded, labelled stand-in the real generator is run natively on
+    enumerated byte patterns with the symbolic bounds set to infinities."""
+    from . import witness
+    decls = [d for d in arbitrary_float_decls(tier) if any(v.kind == 'finite' for v in d.validators) and any(n.startswith('sym_') for n in d.aux)]
+    if tier == 'quick':
+        decls = [d for d in decls if ('f64' in d.id) or ('greater_less_sym' in d.id)]
+    import concurrent.futures
+    def one(d):
+        try:
+            return d, witness.run_witness(d)
+        except Exception as e:
+            return d, (None, repr(e))
+    with concurrent.futures.ThreadPoolExecutor(max_workers=2) as ex:
+        results = list(ex.map(one, decls))
+    nd = 0
+    for d, (wit, log) in results:
+        if wit is None:
+            out.undecided.append('%s: float Arbitrary run with infinite bounds did not build: %s' % (d.id, (log or '')[-200:]))
+            continue
+        nd += 1
+        bad = [w for w in wit if w.get('entry') == 'Arbitrary']
+        if bad:
+            out.failed.append({'key': '%s::Arbitrary::arbitrary(native run incl. infinite bounds, bounded)' % d.id, 'backend': 'concrete exploration (bounded)',
+                               'message': 'the real generator panics or yields an invalid value on a concrete byte input', 'detail': json.dumps(bad[:3]),
+                               'decl': d.id, 'decl_obj': d, 'witness': bad})
+    out.bounded.append('float Arbitrary with `finite` and infinite bounds: %d declarations run natively on enumerated byte patterns with bounds set to +-inf (bounded, not counted)' % nd)
+
+
 def modular_part(out, prop, tier):
     """Kani modular mode (function contracts on the dumped text, stub_verified callers), floats."""
     from . import kani_modular
@@ -1948,6 +2035,7 @@ def kani_part(out, prop, tier, seed):
         kani_run_harnesses(out, prop, prop + 'r', dd, rel, extra_items=extra, release_like=True)
     if prop == 'C09':
         string_arbitrary_exploration(out, tier)
+        float_arbitrary_infinite_bounds(out, tier)
     if prop in NATIVE_STRING_SERDE:
         # String documents whose text arrives as UTF-8 bytes (MessagePack `bin`) or through serde_json with
         # escapes: run natively against the real code (bounded, labelled); CBMC times out on UTF-8 validation
